@@ -171,6 +171,18 @@ class ndpoly(numpy.ndarray):  # pylint: disable=invalid-name
                 Extra arguments passed to `numpy.ndarray` constructor.
 
         """
+        exponents = numpy.asarray(exponents)
+        if exponents.size and exponents.dtype.kind in "iuf":
+            # an exponent is stored as the single code point exponent+KEY_OFFSET
+            # of the field name; anything outside that range would wrap around
+            # in uint32 and come back as another monomial.
+            if numpy.any(exponents < 0) or numpy.any(
+                exponents > 0x10FFFF - cls.KEY_OFFSET
+            ):
+                raise ValueError(
+                    "exponents must be integers between 0 and "
+                    f"{0x10FFFF - cls.KEY_OFFSET}"
+                )
         exponents = numpy.array(exponents, dtype=numpy.uint32)
         if numpy.prod(exponents.shape):
             keys = (exponents + cls.KEY_OFFSET).flatten()
